@@ -98,3 +98,109 @@ Definition slices_sane (nl : netlist) : bool :=
 Definition wire_removal_ok (nl : netlist) : bool := alias_ok nl is_w_net.
 Definition slice_removal_ok (nl : netlist) : bool :=
   alias_ok nl (is_full_slice nl) && slices_sane nl.
+
+(* ---- _constant_prop_pass as an instance of Pass/OptSimProofs: the pieces and the
+        decidable premises of its preservation theorem ------------------------------ *)
+
+Definition cp_kid (nl : netlist) (n : net) : Z := max_wid nl + 1 + ndest n.
+Definition cp_res (nl : netlist) (n : net) := cp_apply nl (cp_kid nl n) n.
+Definition cp_map (nl : netlist) : list (Z * Z) :=
+  flat_map (fun n => snd (fst (cp_res nl n))) (nets nl).
+Definition cp_rho (nl : netlist) : wid -> wid :=
+  find_producer (S (length (nets nl))) (cp_map nl).
+Definition cp_tr (nl : netlist) (n : net) : list net :=
+  map (map_args (cp_rho nl)) (fst (fst (cp_res nl n))).
+Definition cp_K (nl : netlist) : list wid :=
+  flat_map (fun n => map wname (snd (cp_res nl n))) (nets nl).
+
+(* registers whose next-value net is folded to a constant, and that constant *)
+Definition cp_fold_net (nl : netlist) (n : net) : bool :=
+  match nop n, cp_decide nl n with
+  | OpReg, CpConst _ => true
+  | _, _ => false
+  end.
+Definition cp_folded (nl : netlist) (r : wid) : bool :=
+  existsb (fun n => cp_fold_net nl n && (ndest n =? r)) (nets nl).
+Definition cp_cst (nl : netlist) (r : wid) : Z :=
+  match find (fun n => cp_fold_net nl n && (ndest n =? r)) (nets nl) with
+  | Some n => const_val nl (arg n 0) mod 2 ^ width_of nl r
+  | None => 0
+  end.
+
+Definition declared (nl : netlist) (w : wid) : bool :=
+  match find_wire (wires nl) w with Some _ => true | None => false end.
+Definition is_kconst (nl : netlist) (k c : Z) : bool :=
+  match kind_of nl k with KConst c' => c' =? c | _ => false end.
+
+Section CpOk.
+Variable nl : netlist.
+Let nl' := constant_prop_pass nl.
+Let rho := cp_rho nl.
+Let K := cp_K nl.
+
+(* the destination of an emitted net keeps its identity and width *)
+Definition cp_keep_dest (d : wid) : bool :=
+  (rho d =? d) && negb (mem_in d K) && (width_of nl' d =? width_of nl d).
+
+(* width premises of cp_decide_sound (true of API-built nets) *)
+Definition cp_sound_pre (n : net) : bool :=
+  (width_of nl (ndest n) <=? width_of nl (arg n 0))
+  && match nargs n with [a; b] => width_of nl a =? width_of nl b | _ => true end.
+
+Definition cp_alias_const (d k c : Z) : bool :=
+  (rho d =? k) && mem_in k K && (if declared nl' k then is_kconst nl' k c else true).
+
+Definition cp_comb_ok (n : net) : bool :=
+  let d := ndest n in
+  let k := cp_kid nl n in
+  let wd := width_of nl d in
+  match cp_decide nl n with
+  | CpKeep =>
+      cp_keep_dest d
+      && forallb (fun a => declared nl' (rho a) && (width_of nl' (rho a) =? width_of nl a)) (nargs n)
+  | CpConst c =>
+      cp_sound_pre n
+      && if is_output nl d
+         then cp_keep_dest d && (rho k =? k) && mem_in k K && declared nl' k
+              && is_kconst nl' k (c mod 2 ^ wd)
+         else cp_alias_const d k (c mod 2 ^ wd)
+  | CpWire w =>
+      cp_sound_pre n
+      && if is_output nl d then cp_keep_dest d && declared nl' (rho w) else (rho d =? rho w)
+  | CpNot w =>
+      cp_sound_pre n && cp_keep_dest d && declared nl' (rho w)
+      && (width_of nl' (rho w) =? width_of nl w)
+  end.
+
+Definition cp_reg_ok (n : net) : bool :=
+  let d := ndest n in
+  match cp_decide nl n with
+  | CpKeep => negb (cp_folded nl d) && (width_of nl' d =? width_of nl d) && declared nl' (rho (arg n 0))
+  | CpConst _ =>
+      negb (is_output nl d) && is_register nl d && is_const nl (arg n 0)
+      && (cp_cst nl d =? const_val nl (arg n 0) mod 2 ^ width_of nl d)
+      && cp_alias_const d (cp_kid nl n) (cp_cst nl d)
+  | _ => false
+  end.
+
+Definition cp_wr_ok (n : net) : bool :=
+  match cp_decide nl n with
+  | CpKeep => forallb (fun a => declared nl' (rho a)) (nargs n)
+  | _ => false
+  end.
+
+Definition cp_net_ok (n : net) : bool :=
+  if is_comb (nop n) then cp_comb_ok n
+  else match nop n with
+       | OpReg => cp_reg_ok n
+       | _ => cp_wr_ok n
+       end.
+
+Definition cp_base_ok (w : wid) : bool :=
+  cp_folded nl w
+  || ((rho w =? w)
+      && (if declared nl' w then owire_eqb (find_wire (wires nl') w) (find_wire (wires nl) w) else true)).
+
+Definition cp_pass_ok : bool :=
+  forallb cp_net_ok (nets nl) && forallb cp_base_ok (rdy0 nl).
+End CpOk.
